@@ -1,12 +1,17 @@
-(** * C04 - lines and columns: what is proved for every input.
+(** * C04 - lines and columns: what is proved.
     The line table is the backbone of every line/column the buffer reports.  Proved here, for
     every program over the primitives and for the whole lexer: as long as the line-protocol
     monitor stays on ("after consuming a line feed call add_line before anything observes the
-    table"), the table of the returned buffer is exactly the first line start (after a BOM)
+    table"), (1) the table of the returned buffer is exactly the first line start (after a BOM)
     followed by the position after each line feed, so the line count is one plus the number of
-    line feeds.  The monitor is a premise: it is evaluated by the model run on every input of
-    the check (the model and the implementation agree token for token on those inputs), and the
-    start/end line/column statements for tokens and errors are tested by the check's oracle. *)
+    line feeds; (2) every token carries the line of its start; (3) every error carries the line
+    and column of its position; and from these, by computation on the accessor definitions of
+    buffer.rs, (4) the start column and (5) the end line and end column of every token are those of
+    the text.  The monitor is a premise of the general theorems: it is evaluated by the model run
+    on every input of the check (the model and the implementation agree token for token on those
+    inputs).  On macro-free texts it is itself a theorem (the [C04_macro_free_*] statements are
+    unconditional).  The check's oracle recomputes all of these from the text on every input as
+    well. *)
 From Coq Require Import NArith List.
 From SasLexer Require Import Gen.TokenType Gen.ErrorKind Gen.Channel Model.Base Model.Core Model.Buffer
      Model.Lexer3 Spec.RefLex Proofs.Generic Proofs.Lines Proofs.LexLines Proofs.TokLines Proofs.ErrLines Proofs.ColLines Proofs.EndLines Proofs.OcAll Proofs.MacroFree.
